@@ -101,7 +101,7 @@ PROPS = {
     },
     "C01": {
         "level": "proof",
-        "lean_targets": ["LP.Props.C01", "LP.Props.C01Deriv", "LP.Props.C01Canon"],
+        "lean_targets": ["LP.Props.C01", "LP.Props.C01Deriv", "LP.Props.C01Canon", "LP.Props.C01EvalRat"],
         "harnesses": [{"name": "h_poly", "quick": 40000, "thorough": 600000}],
         "select": lambda t: t[1] in ("poly", "up"),
         "nontrivial": lambda t, r: len(r) > 0 and ("+" in r[0] or "," in r[0] or t[2] in ("evalint", "evalrat")),
